@@ -55,8 +55,19 @@ def prepare_workspace(tag, repo="/repo"):
     lock = open(os.path.join(base, ".lock"), "w")
     fcntl.flock(lock, fcntl.LOCK_EX)
     ws = os.path.join(base, "ws")
-    subprocess.run(["rsync", "-a", "--delete", "--exclude", "/target", "--exclude", ".git", repo + "/", ws + "/"],
-                   check=True)
+    # rsync -a keeps the source's mtimes; cargo decides freshness by mtime, so a file that is REPLACED BY AN OLDER
+    # VERSION (a tree checked after a scratch copy with a later edit used the same target directory) would leave a stale
+    # artefact of a dependency crate in place.  Every file rsync transfers is therefore touched.
+    p = subprocess.run(["rsync", "-a", "--delete", "--itemize-changes", "--exclude", "/target", "--exclude", ".git",
+                        repo + "/", ws + "/"], check=True, capture_output=True, text=True)
+    now = time.time()
+    for line in p.stdout.splitlines():
+        if line.startswith(">f"):
+            f = os.path.join(ws, line.split(" ", 1)[1])
+            try:
+                os.utime(f, (now, now))
+            except OSError:
+                pass
     os.makedirs(os.path.join(ws, ".cargo"), exist_ok=True)
     with open(os.path.join(ws, ".cargo", "config.toml"), "w") as f:
         f.write("[net]\noffline = true\n")
